@@ -18,6 +18,8 @@ fn dec_res(x: u8) -> Result<u8, &'static str> { cnt(); if x > 0 { Ok(x - 1) } el
 fn rec_res(e: &'static str) -> Result<u8, &'static str> { cnt(); if e.is_empty() { Ok(42) } else { Err("still") } }
 fn up(e: &'static str) -> usize { cnt(); e.len() + 10 }
 
+fn once<T>(x: T) -> T { for _ in 0..1000 { cnt(); } x }
+
 const OPTS: [Option<u8>; 4] = [None, Some(0), Some(1), Some(255)];
 const OSTR: [Option<&'static str>; 3] = [None, Some(""), Some("x")];
 const RESS: [Result<u8, &'static str>; 5] = [Ok(0), Ok(1), Ok(255), Err(""), Err("x")];
@@ -59,6 +61,12 @@ def opt_result_programs():
 
     def over(coll, var, name, k, s):
         P.append((name, [f"for {var} in {coll} {{ out.push((format!(\"{name} on {{:?}}\", {var}), obs(|| {k}), obs(|| {s}))); }}"]))
+        # the receiver given as an expression whose evaluation is counted (1000 per evaluation): evaluated exactly once
+        import re
+        k2 = re.sub(r"!\(" + var + r"\b", f"!(once({var})", k, count=1)
+        s2 = re.sub(r"^" + var + r"\.", f"once({var}).", s, count=1)
+        if k2 != k and s2 != s:
+            P.append((name + " [receiver expression]", [f"for {var} in {coll} {{ out.push((format!(\"{name} with the receiver as a counted expression, on {{:?}}\", {var}), obs(|| {k2}), obs(|| {s2}))); }}"]))
 
     # ---- Option
     over("OPTS", "o", "option::unwrap_or!(o, 7)", "option::unwrap_or!(o, 7)", "o.unwrap_or(7)")
